@@ -10,6 +10,7 @@ import (
 	"fmt"
 	"strings"
 	"sync"
+	"time"
 )
 
 // Event kinds.
@@ -56,21 +57,24 @@ type e2eEvent struct {
 	Chunk    int
 	N        int
 	Note     string
+	T        int64 // microseconds since the trace was created (diagnostics only; never part of a projection)
 }
 
 // e2eTrace is the totally ordered event log.
 type e2eTrace struct {
 	mu     sync.Mutex
 	events []e2eEvent
+	t0     time.Time
 }
 
-func newE2ETrace() *e2eTrace { return &e2eTrace{} }
+func newE2ETrace() *e2eTrace { return &e2eTrace{t0: time.Now()} }
 
 // Log appends an event and returns its sequence number.
 func (t *e2eTrace) Log(ev e2eEvent) int {
 	t.mu.Lock()
 	defer t.mu.Unlock()
 	ev.Seq = len(t.events)
+	ev.T = int64(time.Since(t.t0) / time.Microsecond)
 	t.events = append(t.events, ev)
 	return ev.Seq
 }
@@ -79,6 +83,7 @@ func (t *e2eTrace) Log(ev e2eEvent) int {
 // and "append the event" one atomic step).
 func (t *e2eTrace) logLocked(ev e2eEvent) int {
 	ev.Seq = len(t.events)
+	ev.T = int64(time.Since(t.t0) / time.Microsecond)
 	t.events = append(t.events, ev)
 	return ev.Seq
 }
@@ -107,7 +112,7 @@ func (t *e2eTrace) Dump(max int) string {
 
 func (ev e2eEvent) String() string {
 	var sb strings.Builder
-	fmt.Fprintf(&sb, "%04d %s", ev.Seq, ev.Kind)
+	fmt.Fprintf(&sb, "%04d %8.1fms %s", ev.Seq, float64(ev.T)/1000, ev.Kind)
 	switch ev.Kind {
 	case evAgentStart, evAgentStopReq, evAgentStopped:
 		fmt.Fprintf(&sb, " gen=%d", ev.Gen)
